@@ -32,10 +32,10 @@ def consumed(res, trace, f):
             l = res.loops.get(it.loop_id)
             if l is None:
                 return None, None
-            rng = [v for k, v in l["entry_values"].items() if isinstance(v, Agg) and (v.name or "").endswith("Range")]
-            if len(rng) != 1:
+            rng = C.loop_range(l, res.loops)
+            if rng is None:
                 return None, None
-            start, end = f.simplify(rng[0].fields[0].poly()), f.simplify(rng[0].fields[1].poly())
+            start, end = f.simplify(rng[0]), f.simplify(rng[1])
             if start != ZERO:
                 return None, None
             for c in l["cont"]:
